@@ -12,6 +12,7 @@ import Scale.Append
 import Scale.EntryEnc
 import Scale.Like
 import Scale.Derive
+import Scale.Ledger
 namespace Scale.Driver
 open Scale
 
@@ -481,6 +482,17 @@ def answer (line : String) : String :=
     match parseTypeDef rest with
     | some (d, []) => if Derive.acceptsCompactAs d then "accept" else "reject"
     | _ => "bad-op"
+  | ["ledger", shape, n, k, kind] =>
+    match n.toNat?, (if k == "-" then some none else k.toNat?.map some) with
+    | some n, some k =>
+      let bad : Ledger.Outcome := if kind == "panic" then .panic else .err
+      let elem : Nat → Ledger.Outcome := fun i => if some i = k then bad else .ok
+      match shape with
+      | "array" => Ledger.summary (Ledger.arrayDecodeInto n elem true)
+      | "boxarray" => Ledger.summary (Ledger.boxDecode true (Ledger.arrayDecodeInto n elem true))
+      | "vec" => Ledger.summary (Ledger.vecDecode n elem)
+      | _ => "bad-op"
+    | _, _ => "bad-op"
   | "mel" :: rest =>
     match parseTy rest with
     | some (ty, []) => if Impl.hasMel ty then toString (Impl.mel ty) else "none"
